@@ -140,6 +140,7 @@ pub fn monitor_c13(m: &mut Mon, w: &IncWorld, pre: &Snap, op: &Op, ok: bool, pos
                 // the emission of an epoch as the claim derives it from the flow's emitted_tokens ledger, replayed from the pre-state
                 let mut emitted: std::collections::BTreeMap<u64, u128> = f.emitted.iter().cloned().collect();
                 let mut bad_div = false;
+                let mut le_emission = true;
                 while e <= pre.epoch {
                     count += 1;
                     if count > 100 { break; }
@@ -156,28 +157,16 @@ pub fn monitor_c13(m: &mut Mon, w: &IncWorld, pre: &Snap, op: &Op, ok: bool, pos
                         if gs > 0 && wgt > 0 {
                             let share = cosmwasm_std::Uint256::from(wgt) * cosmwasm_std::Uint256::from(DEC) / cosmwasm_std::Uint256::from(gs);
                             let r = cosmwasm_std::Uint256::from(emission) * share / cosmwasm_std::Uint256::from(DEC);
+                            le_emission &= r <= cosmwasm_std::Uint256::from(emission);
                             expected += Uint128::try_from(r).map(|x| x.u128()).unwrap_or(u128::MAX / 4);
                         }
                     }
                     e += 1;
                 }
                 if bad_div { continue; }
+                if g.claimed - f.claimed == expected { m.check(le_emission, "claim_le_emission: a claim paid more for an epoch than the epoch's emission (weight above the snapshot)"); }
                 m.check(g.claimed - f.claimed == expected,
                     &format!("claim_uses_epoch_weight: flow {} paid {} but emission * (weight of each epoch / snapshot) gives {}", f.id, g.claimed - f.claimed, expected));
-            }
-            // a claim of exactly one epoch pays at most that epoch's emission, flow by flow
-            if last == Some(pre.epoch.wrapping_sub(1)) {
-                let e = pre.epoch;
-                for f in &pre.st.flows {
-                    if let Some(g) = post.flow(f.id) {
-                        let d = g.claimed - f.claimed;
-                        if d > 0 {
-                            let now = g.emitted.iter().find(|x| x.0 == e).map(|x| x.1);
-                            let before = g.emitted.iter().find(|x| x.0 + 1 == e).map(|x| x.1).unwrap_or(0);
-                            m.check(now.map(|n| d <= n.saturating_sub(before)).unwrap_or(false), "claim_le_emission: one claim paid more for an epoch than the epoch's emission");
-                        }
-                    }
-                }
             }
         }
     }
@@ -191,7 +180,8 @@ pub fn run(args: &Args) {
     let mut out = Out::new(&args.out);
     out.rule = "histories: non-trivial = at least two addresses held weight, a snapshot was taken in at least two epochs and at least one claim paid something; \
                 distinct by hash of the op list. weight stream: non-trivial = result strictly greater than the amount (rounding multiplier applied)".into();
-    let mut rng = Rng::new(args.seed);
+    // Rng::new seeds linearly (seed s+1 is seed s shifted by one draw); decorrelate the seeds of this property
+    let mut rng = Rng::new(hash64(&[args.seed as u128, 0xC13_5EED]));
     let focus = focus_c13();
     let mut extra = |m: &mut Mon, w: &IncWorld, pre: &Snap, op: &Op, ok: bool, post: &Snap| monitor_c13(m, w, pre, op, ok, post);
     if let Some(path) = &args.replay {
